@@ -1,4 +1,5 @@
 import PexpectModel.Session
+import PexpectModel.SessionFaults
 import PexpectModel.Interact
 /-! # C11 — logging fidelity: the log files are an exact transcript. -/
 namespace C11
@@ -43,5 +44,27 @@ def idEnc : IncEncoder Unit := ⟨(), fun s a => (s, a), by intros; rfl, by intr
 
 example : (run utf8 idEnc ⟨[10], 4, 3⟩ (Sess.init utf8 idEnc) [.send [97], .read [0xC3], .sendcontrol 99, .read [0xA9]]).logfile
   = [.write .send [97], .flush, .write .read [], .flush, .write .send [3], .flush, .write .read [0xE9], .flush] := by decide
+
+
+/-- **send_logged_once_under_write_faults**: when the descriptor refuses a write (EAGAIN) or takes only its first bytes, whatever happens at
+    every single write, the three log files are those of the same requests on a descriptor that takes everything: each request once, in
+    order, flushed -/
+theorem send_logged_once_under_write_faults (dec : IncDecoder σd Nat) (enc : IncEncoder σe) (cfg : Cfg) (ops : List (Op × WFault)) :
+    (runF dec enc cfg (Sess.init dec enc) ops).logfile = logSpec dec cfg (fun _ => true) dec.init (ops.map (·.1)) ∧
+    (runF dec enc cfg (Sess.init dec enc) ops).logRead = logSpec dec cfg (fun d => d == .read) dec.init (ops.map (·.1)) ∧
+    (runF dec enc cfg (Sess.init dec enc) ops).logSend = logSpec dec cfg (fun d => d == .send) dec.init (ops.map (·.1)) := by
+  have h := runF_offWire dec enc cfg ops (Sess.init dec enc) (Sess.init dec enc) rfl
+  have t := logs_are_transcript dec enc cfg (ops.map (·.1))
+  have h1 : (runF dec enc cfg (Sess.init dec enc) ops).logfile = (run dec enc cfg (Sess.init dec enc) (ops.map (·.1))).logfile := by
+    have := congrArg (fun x => St.logfile x) h; exact this
+  have h2 : (runF dec enc cfg (Sess.init dec enc) ops).logRead = (run dec enc cfg (Sess.init dec enc) (ops.map (·.1))).logRead := by
+    have := congrArg (fun x => St.logRead x) h; exact this
+  have h3 : (runF dec enc cfg (Sess.init dec enc) ops).logSend = (run dec enc cfg (Sess.init dec enc) (ops.map (·.1))).logSend := by
+    have := congrArg (fun x => St.logSend x) h; exact this
+  rw [h1, h2, h3]; exact t
+
+example : (runF utf8 idEnc ⟨[10], 4, 3⟩ (Sess.init utf8 idEnc) [(.send [97, 98], .refuse), (.sendline [99, 100], .short 1), (.send [101], .ok)]).logSend
+    = [.write .send [97, 98], .flush, .write .send [99, 100, 10], .flush, .write .send [101], .flush] ∧
+  (runF utf8 idEnc ⟨[10], 4, 3⟩ (Sess.init utf8 idEnc) [(.send [97, 98], .refuse), (.sendline [99, 100], .short 1), (.send [101], .ok)]).peer = [99, 101] := by decide
 
 end C11
